@@ -464,6 +464,14 @@ pub fn gen_universe(w: &World, rng: &mut Rng, prop: Prop) -> Universe {
             _ => queries.push(p.clone()),
         }
     }
+    for p in &all_named {
+        let last = p.rsplit("::").next().unwrap();
+        if let Some((_, tail)) = last.rsplit_once('_') {
+            if syn::parse_str::<syn::Ident>(tail).is_ok() && queries.len() < 14 {
+                queries.push(tail.to_string());
+            }
+        }
+    }
     queries.extend(extra_queries);
     queries.push("Option".into());
     queries.push("x::Option<T>".into());
@@ -532,6 +540,7 @@ fn defective_sub(rng: &mut Rng, src: &str, n: usize) -> (String, String, SubErr)
             5 => (format!("{src}<A, B, 3>"), good_tgt, SubErr::InvalidFromType),
             6 => (src.into(), format!("::t::R{n}<&'static A>"), SubErr::InvalidToType),
             7 => (src.into(), format!("::t::R{n}<A, fn()>"), SubErr::InvalidToType),
+            8 if rng.chance(1, 2) => (src.into(), format!("::t::R{n}<(A)>"), SubErr::InvalidToType),
             8 => (src.into(), format!("::t::R{n}<_>"), SubErr::InvalidToType),
             _ => (src.into(), format!("crate::t::R{n}(A) -> B"), SubErr::ExpectedAngleBracketGenerics),
         };
@@ -624,7 +633,14 @@ pub fn gen_history(u: &Universe, seed: u64) -> Vec<HOp> {
                 _ => (Op::AttrsAll(batch(&mut rng, &u.attrs, sw.empty_batches)), Expect::Accept),
             }
         } else if pick < sw.w_global + sw.w_perpath {
-            let path = rng.pick(&u.paths).clone();
+            let mut path = rng.pick(&u.paths).clone();
+            // the same identifiers spelled differently are different entries for the builders
+            // (and never match a registry type), but the same path for validation
+            match rng.below(24) {
+                0 => path = format!("::{path}"),
+                1 => path = format!("{path}<X>"),
+                _ => {}
+            }
             let recursive = rng.chance(1, 2);
             if rng.chance(3, 5) {
                 (
@@ -1265,6 +1281,12 @@ pub fn run_history(u: &Universe, hist: &[HOp], prop: Prop, perm_seed: u64) -> Hi
         stats.model_states.insert(m.digest());
         if violation.is_some() {
             break;
+        }
+        if (hist.len() + i) % 4 == 0 {
+            // settings get rendered between builder calls in real use (see c06.rs)
+            use quote::ToTokens;
+            let _ = b.derives.default_derives().to_token_stream();
+            let _ = b.derives.clone().default_derives().to_token_stream();
         }
         if h.read_after {
             stats.reads += 1;
